@@ -32,12 +32,12 @@ type vfStoreOp struct {
 	Op  string      `json:"op"` // add | flush | bulk | (C08: remove | rotate | evict | bgflush | compact | search)
 	Doc *vfStoreDoc `json:"doc,omitempty"`
 	// bulk (C09): Count documents with explicit ids From.. and vectors derived from Seed
-	Count int    `json:"count,omitempty"`
-	From  uint32 `json:"from,omitempty"`
-	Seed  uint64 `json:"seed,omitempty"`
-	Ref int         `json:"ref,omitempty"`
-	K   int         `json:"k,omitempty"`
-	Q   []float32   `json:"q,omitempty"`
+	Count int       `json:"count,omitempty"`
+	From  uint32    `json:"from,omitempty"`
+	Seed  uint64    `json:"seed,omitempty"`
+	Ref   int       `json:"ref,omitempty"`
+	K     int       `json:"k,omitempty"`
+	Q     []float32 `json:"q,omitempty"`
 }
 
 type vfStoreConf struct {
